@@ -10,9 +10,14 @@ RULE = ("library -> independent (channels lkey, l2i): documents written by the r
         "R4-AESV2, R6-AESV3; EncryptMetadata true/false; classic xref or xref stream + encrypted object stream with plaintext members; strings in arrays, "
         "nested dictionaries, a stream dictionary; XMP metadata stream) opened by the real reader with the user or owner password; Coq re-checks the "
         "encryptor's output with RefDecrypt (bit 4) and compares the reader's objects with the plaintext (bit 2) and with the reader model (bit 1). "
+        "Object trees of the independent files contain arrays whose elements are only dictionaries (strings at depth 1-3), numbers/names/references + a dictionary, "
+        "a dictionary array inside a dictionary array, and mixed arrays, for every cipher. Channel r6: 48 (thorough 150) small R6 files from the harness's own Algorithm 2.B "
+        "(4 (password, salt) evaluations each, stopping round and last byte reported per evaluation); salts are searched so that evaluations stop exactly on the boundary "
+        "last byte = rounds - 32 (user validation / user key / owner validation / owner key), at rounds - 33, and pass a round at rounds - 31; each file must open with the user AND "
+        "the owner password and give the file key and the plaintext objects. Channel h2b: the boundary evaluation of the run is re-computed by the Gallina Algorithm 2.B. "
         "non-trivial = the object has a non-empty string or stream / the password was accepted")
 
-CHANNELS = ["lkey", "l2i", "ikey", "i2l"]
+CHANNELS = ["lkey", "l2i", "ikey", "i2l", "r6", "h2b"]
 
 
 def classify(case, code):
